@@ -433,6 +433,10 @@ class NNFizer(DagWalker):
                         mgr.Not(s.arg(1))]
             elif s.is_quantifier():
                 return [mgr.Not(s.arg(0))]
+            elif s.is_ite():
+                # The argument of a Not is Boolean: this is a boolean ITE
+                i, t, e = s.args()
+                return [i, mgr.Not(i), mgr.Not(t), mgr.Not(e)]
             else:
                 return [s]
 
@@ -482,6 +486,9 @@ class NNFizer(DagWalker):
             return self.mgr.Exists(s.quantifier_vars(), args[0])
         elif s.is_exists():
             return self.mgr.ForAll(s.quantifier_vars(), args[0])
+        elif s.is_ite():
+            i, ni, nt, ne = args
+            return self.mgr.And(self.mgr.Or(ni, nt), self.mgr.Or(i, ne))
         else:
             return self.mgr.Not(args[0])
 
